@@ -129,6 +129,72 @@ def builder_check(ctx, impl, rots, stats=None, cases=None, extra=None, cfg=GENER
     return len(rots)
 
 
+def e2e_check(ctx, impl, rots, hardware, stats, extra=None):
+    """End-to-end leg of the builder route: the calls are executed by the package's base Executor; per emitted
+    step the performed angle must be n*pi/2^d, per call with an angle the performed angles must add up to
+    the requested angle modulo 2 pi within tol + allowance, per n/d-only call exactly one step (n, d)."""
+    tol = impl.default_tol
+    if any(r.get("angle") is None and not (0 <= r.get("n", 0) <= 255 and 0 <= r.get("d", 0) <= 255) for r in rots):
+        return
+    rj = [ac.rot_json(r) for r in rots]
+    segs = impl.run_e2e(rots, hardware)
+    stats["e2e_calls"] = stats.get("e2e_calls", 0) + len(rots)
+
+    def rec(i, got, why, **kw):
+        r = rots[i]
+        d = dict(via="e2e", hardware=hardware, rots=rj, index=i, axis=r["axis"], n=r.get("n"), d=r.get("d"),
+                 angle=rj[i].get("angle"), angle_repr=rj[i].get("angle_repr"), tol=float(tol).hex(), performed=got, why=why)
+        d.update(extra or {})
+        d.update(kw)
+        return d
+
+    if segs is None:
+        ctx.violation("end to end: building / executing the rotation raised", rec(0, None, "pipeline raised"))
+        return
+    for i, (r, seg) in enumerate(zip(rots, segs)):
+        perf = [[m, n, d, float(a).hex()] for (m, n, d, a) in seg]
+        stats["e2e_steps"] = stats.get("e2e_steps", 0) + len(seg)
+        for (m, n, d, a) in seg:
+            if m != "rot_" + r["axis"].lower() or not ac.step_angle_ok(n, d, a):
+                ctx.violation("end to end: the executor performs another angle than n*pi/2^d for an emitted step",
+                              rec(i, perf, "step (%d, %d) performed as %r rad, n*pi/2^d = %r" % (n, d, a, n * math.pi / 2 ** d),
+                                  step=[n, d], performed_angle=float(a).hex()))
+                break
+        if r.get("angle") is not None:
+            ok, err = ac.performed_oracle(float(r["angle"]), tol, seg)
+            if not ok:
+                ctx.violation("end to end: performed rotation misses the requested angle by %.6g rad > tol %g" % (err, tol),
+                              rec(i, perf, "sum of the angles handed to the backend differs from the requested angle", error=err))
+        elif [[n, d] for (_, n, d, _) in seg] != [[r.get("n", 0), r.get("d", 0)]]:
+            ctx.violation("end to end: rot_<axis>(n, d) did not execute exactly one step (n, d)", rec(i, perf, "n/d route altered"))
+        ctx.note_case((json.dumps(rj[i], sort_keys=True), "e2e", hardware), nontrivial=bool(seg))
+
+
+def e2e_sweep(ctx, impl, stats):
+    """exhaustive: every (n, d), n in 0..255, d in 0..31 and boundary exponents, through rot_Z(n, d) ->
+    builder -> bytes -> Executor: the performed angle is n*pi/2^d"""
+    bad = 0
+    for d in ac.SWEEP_D:
+        rots = [dict(axis="XYZ"[(n + d) % 3], n=n, d=d) for n in range(256)]
+        segs = impl.run_e2e(rots, "generic", flush_each=False)
+        steps = None if segs is None else segs[0]
+        if steps is None or [(n_, d_) for (_, n_, d_, _) in steps] != [(n, d) for n in range(256)]:
+            ctx.violation("end to end sweep: rotations (n, %d), n = 0..255 were not all executed" % d,
+                          dict(via="e2e-sweep", d=d, executed=None if steps is None else len(steps)))
+            bad += 1
+            continue
+        for (m, n, d_, a) in steps:
+            stats["sweep_pairs"] = stats.get("sweep_pairs", 0) + 1
+            if not ac.step_angle_ok(n, d_, a):
+                bad += 1
+                if bad <= 3:
+                    ctx.violation("end to end sweep: the executor performs (%d, %d) as %r rad, n*pi/2^d = %r" % (
+                        n, d_, a, n * math.pi / 2 ** d_),
+                        dict(via="e2e", hardware="generic", rots=[dict(axis=m[-1].upper(), n=n, d=d_)], index=0, axis=m[-1].upper(),
+                             n=n, d=d_, performed_angle=float(a).hex(), why="performed angle differs from n*pi/2^d"))
+    stats["sweep_bad"] = bad
+
+
 def run_check(ctx, impl, rots, extra=None, cfg=GENERIC, stats=None):
     """2..4 consecutive rotation calls on one qubit WITHOUT separator, under configuration cfg: oracle on the
     whole emitted run (flush succeeds, every instruction encodable, per maximal same-axis group the steps add
@@ -180,7 +246,9 @@ def run_corpus(ctx, impl):
     for p in sorted(glob.glob(os.path.join(CORPUS, "*.json"))):
         for rec in json.load(open(p))["cases"]:
             n += 1
-            if rec.get("via") == "builder-run":
+            if rec.get("via") == "e2e":
+                e2e_check(ctx, impl, rots_of_record(rec), rec.get("hardware", "generic"), {}, extra=dict(corpus=os.path.basename(p)))
+            elif rec.get("via") == "builder-run":
                 run_check(ctx, impl, rots_of_record(rec), extra=dict(corpus=os.path.basename(p)), cfg=cfg_of_record(rec))
             elif rec.get("via") == "builder":
                 builder_check(ctx, impl, rots_of_record(rec), extra=dict(corpus=os.path.basename(p)), cfg=cfg_of_record(rec))
@@ -195,7 +263,7 @@ def run(ctx):
                 "m*pi/2^k and +-1..3 ulp; rest next to 255/2^k, 127/2^k, 128/2^k (d-window edges); within tol of 0 and of 2pi "
                 "in radians and in half turns, both signs) + random (uniform [0,2pi), [-2pi,0), 2pi<|a|<100, 1e-12<|a|<1, "
                 "1e2<|a|<1e6, 1e6<|a|<1e18), tol in {1e-1..1e-9} or log-uniform (quick tier: every third member of the deterministic families); plus rot_X/Y/Z(angle=) on a real connection "
-                "(default tol; three routes: angle only, angle together with non-default n and d - which the documentation says are ignored -, n and d only - emitted verbatim; a Hadamard separates the calls) and as runs of 2..4 consecutive calls without separator (whole-run oracle per maximal same-axis group); every builder program under six configurations: default / hardware_config=NVHardwareConfig / compiler=NVSubroutineTranspiler, each with set_is_using_hardware False and True. Every case: implementation vs Coq model as exact (n,d) lists, and the oracle "
+                "(default tol; three routes: angle only, angle together with non-default n and d - which the documentation says are ignored -, n and d only - emitted verbatim; a Hadamard separates the calls) and as runs of 2..4 consecutive calls without separator (whole-run oracle per maximal same-axis group); every builder program under six configurations: default / hardware_config=NVHardwareConfig / compiler=NVSubroutineTranspiler, each with set_is_using_hardware False and True; end-to-end leg: programs executed by the base Executor, the angle handed to _do_single_qubit_rotation compared per step with n*pi/2^d and per call with the requested angle; exhaustive sweep of (n, d), n 0..255, d 0..31 and boundary exponents. Every case: implementation vs Coq model as exact (n,d) lists, and the oracle "
                 "(1<=n<=255, 0<=d<=255, circle distance |sum n*pi/2^d - angle| <= tol + 2^-49 in 80-digit rationals). "
                 "non-trivial = at least one rotation step emitted; distinct = distinct (angle bits, tol bits, route)")
     impl = ac.Impl(ctx.repo)
@@ -285,10 +353,23 @@ def run(ctx):
             b_cfg["%s/hw=%s" % cfg] = b_cfg.get("%s/hw=%s" % cfg, 0) + nr
             if cfg == GENERIC:
                 b_rot += nr
+                # end-to-end leg: quick every second program (generic) / every sixth (nv); thorough every program / every third
+                if k % (2 if quick else 1) == 0:
+                    e2e_check(ctx, impl, rots, "generic", stats)
+                if k % (6 if quick else 3) == 1:
+                    e2e_check(ctx, impl, rots, "nv", stats)
         for r in rots:
             b_kinds["n_d_only" if r.get("angle") is None else "angle_with_n_d" if ("n" in r or "d" in r) else "angle_only"] += 1
 
     ctx.log(f"{len(bcases)} builder programs checked under the configurations")
+    if stats.get("timeouts", 0) < 3:
+        e2e_sweep(ctx, impl, stats)
+    ctx.coverage["end_to_end"] = dict(
+        what="builder -> bytes -> base Executor (harness/sdk_pipeline.py); the angle handed to _do_single_qubit_rotation is recorded",
+        calls=stats.get("e2e_calls", 0), executed_steps=stats.get("e2e_steps", 0),
+        sweep_pairs_n_d=stats.get("sweep_pairs", 0), sweep_exponents=ac.SWEEP_D, sweep_exhaustive_n=[0, 255],
+        sweep_failures=stats.get("sweep_bad", 0))
+    ctx.log(f"end to end: {stats.get('e2e_calls', 0)} calls, sweep of {stats.get('sweep_pairs', 0)} (n, d) pairs")
     # ---- consecutive rotation calls without separator (whole-run oracle)
     runs = [] if stats.get("timeouts", 0) >= 3 else ac.gen_builder_runs(ctx.rng, 300 if quick else 4000, impl.default_tol)
     run_diff = []
@@ -447,7 +528,11 @@ def search(ctx, impl, mism, cases):
 def replay(ctx, path):
     rec = json.load(open(path))["replay"]
     impl = ac.Impl(ctx.repo)
-    if rec.get("via") == "builder-run":
+    if rec.get("via") == "e2e":
+        rots = rots_of_record(rec)
+        print("replay (e2e):", rec.get("hardware", "generic"), rots, "->", impl.run_e2e(rots, rec.get("hardware", "generic")))
+        e2e_check(ctx, impl, rots, rec.get("hardware", "generic"), {})
+    elif rec.get("via") == "builder-run":
         rots = rots_of_record(rec)
         cfg = cfg_of_record(rec)
         print("replay (builder-run):", cfg, rots, "->", impl.emit(rots, separate=False, cfg=cfg))
